@@ -60,3 +60,5 @@ pub assume_specification<T, E>[Result::<T, E>::unwrap_or](r: Result<T, E>, d: T)
     ensures o == (match r { Ok(v) => v, Err(_) => d });
 pub assume_specification<T, E, F>[Result::<T, E>::or](r: Result<T, E>, res: Result<T, F>) -> (o: Result<T, F>)
     ensures o == (match r { Ok(v) => Ok::<T, F>(v), Err(_) => res });
+// an explicit `drop(x)` ends the value's life where the scope would have ended it: no effect on the ghost state
+pub assume_specification<T>[core::mem::drop::<T>](x: T);
